@@ -93,7 +93,7 @@ JUMP_BUDGET = 10_000_000
 
 LE_CHANNELS = ['att', 'att-client', 'smp', 'le-sig', 'le-coc', 'hci-le', 'hci-flow']
 BR_CHANNELS = ['br-sig', 'smp-br', 'br-dyn', 'br-ertm', 'sdp', 'rfcomm-mux', 'rfcomm-dlc', 'hfp-ag', 'hfp-hf',
-               'avdtp', 'avctp', 'hci-br', 'br-config', 'sdp-client']
+               'avdtp', 'avctp', 'hci-br', 'br-config', 'sdp-client', 'ertm-state', 'rfcomm-open', 'avdtp-state']
 CHANNELS = LE_CHANNELS + BR_CHANNELS
 
 for _c in CHANNELS:
@@ -143,7 +143,8 @@ def plan(tier, seed):
     # (a) enumeration: every truncation / length setting, split in parts
     parts = {'att': 2, 'att-client': 1, 'smp': 2, 'le-sig': 3, 'le-coc': 1, 'hci-le': 10, 'br-sig': 4, 'smp-br': 2,
              'br-dyn': 1, 'br-ertm': 1, 'sdp': 6, 'rfcomm-mux': 3, 'rfcomm-dlc': 2, 'hfp-ag': 1, 'hfp-hf': 1,
-             'avdtp': 2, 'avctp': 4, 'hci-br': 10, 'hci-flow': 4, 'br-config': 4, 'sdp-client': 4}
+             'avdtp': 2, 'avctp': 4, 'hci-br': 10, 'hci-flow': 4, 'br-config': 4, 'sdp-client': 4,
+             'ertm-state': 8, 'rfcomm-open': 4, 'avdtp-state': 4}
     for chan in CHANNELS:
         n = parts[chan]
         for i in range(n):
@@ -442,8 +443,9 @@ class Attacker:
                     self.send_sig(0x05, ident, rf.u16(self.autoconf[dcid]) + rf.u16(0) + rf.u16(0) + d[4:])
 
     # -- classic dynamic channel by hand ----------------------------------------
-    async def open_classic(self, psm, ertm=False, mtu=1024):
-        """Returns (my_cid, victim_cid) or a string describing where it failed."""
+    async def open_classic(self, psm, ertm=False, mtu=1024, window=8):
+        """Returns (my_cid, victim_cid) or a string describing where it failed. `window`: the TxWindow this peer
+        grants the victim in its Retransmission and Flow Control option (ERTM only)."""
         my = self.new_cid()
         ident = self.nid()
         self.sigs.clear()
@@ -463,9 +465,10 @@ class Attacker:
         cid_ident = self.nid()
         opts = rf.conf_opt(1, rf.u16(mtu))
         if ertm:
-            opts += rf.conf_opt(4, bytes([3, 8, 3]) + rf.u16(2000) + rf.u16(12000) + rf.u16(256))
+            opts += rf.conf_opt(4, bytes([3, window, 3]) + rf.u16(2000) + rf.u16(12000) + rf.u16(256))
         self.send_sig(0x04, cid_ident, rf.u16(dcid) + rf.u16(0) + opts)
         got_req = got_rsp = False
+        self.victim_conf_options = b''
         for _ in range(6):
             def step():
                 return self.take_sig(lambda c, i, d: (c == 0x04 and len(d) >= 4 and struct.unpack_from('<H', d, 0)[0] == my)
@@ -475,6 +478,7 @@ class Attacker:
                 break
             if s[0] == 0x04:
                 self.send_sig(0x05, s[1], rf.u16(dcid) + rf.u16(0) + rf.u16(0) + s[2][4:])
+                self.victim_conf_options = s[2][4:]
                 got_req = True
             else:
                 if len(s[2]) >= 6 and struct.unpack_from('<H', s[2], 4)[0] == 0:
@@ -730,7 +734,7 @@ async def setup_br(env: Env, rng: random.Random, chan: str):
 
     def on_avdtp(server):
         env.avdtp_servers.append(server)
-        server.add_sink(avdtp.MediaCodecCapabilities(
+        caps = avdtp.MediaCodecCapabilities(
             media_type=avdtp.MediaType.AUDIO, media_codec_type=a2dp.CodecType.SBC,
             media_codec_information=a2dp.SbcMediaCodecInformation(
                 sampling_frequency=a2dp.SbcMediaCodecInformation.SamplingFrequency.SF_44100,
@@ -738,7 +742,15 @@ async def setup_br(env: Env, rng: random.Random, chan: str):
                 block_length=a2dp.SbcMediaCodecInformation.BlockLength.BL_16,
                 subbands=a2dp.SbcMediaCodecInformation.Subbands.S_8,
                 allocation_method=a2dp.SbcMediaCodecInformation.AllocationMethod.LOUDNESS,
-                minimum_bitpool_value=2, maximum_bitpool_value=53)))
+                minimum_bitpool_value=2, maximum_bitpool_value=53))
+        server.add_sink(caps)
+        if chan == 'avdtp-state':
+            # three local end-points (sink, source, sink): 'the last one' is not 'the first one'
+            async def no_packets():
+                return
+                yield       # noqa — an empty asynchronous generator
+            server.add_source(caps, avdtp.MediaPacketPump(no_packets()))
+            server.add_sink(caps)
 
     listener.on(listener.EVENT_CONNECTION, on_avdtp)
     env.avdtp_listener = listener
